@@ -206,9 +206,7 @@ struct Value {
         int64 = non_numeric ? 0 : atoll(v);
         if (int64 != 0 || !strcmp(v, "0")) {
             // verify
-            char buf[vlen + 1];
-            snprintf(buf, vlen + 1, "%" PRId64, int64);
-            if (!strcmp(buf, v)) {
+            if (std::to_string(int64) == v) {
                 // verified; can it be a hexstring too?
                 if (!(vlen & 1)) {
                     std::vector<unsigned char> pushData;
